@@ -48,6 +48,7 @@ type Program struct {
 	// Folded lists the new helpers that were folded into their callers, FoldKept those that were left alone (with the
 	// reason), FoldNote a failure of the folded sources to type-check (the tree was then analysed as it is).
 	Folded   []string
+	Renamed  []string
 	FoldKept []string
 	FoldNote string
 
@@ -149,7 +150,7 @@ func LoadModule(repo, modPath string, t Target) (*Program, error) {
 	p := &Program{Target: t, Repo: repo, ModPath: modPath, ByPath: map[string]*packages.Package{}, SSAPkgs: map[string]*ssa.Package{}}
 	p.FoldNote = foldNote
 	if foldRes != nil {
-		p.Folded, p.FoldKept = foldRes.Folded, foldRes.Kept
+		p.Folded, p.FoldKept, p.Renamed = foldRes.Folded, foldRes.Kept, foldRes.Renamed
 	}
 	sort.Slice(pkgs, func(i, j int) bool { return pkgs[i].PkgPath < pkgs[j].PkgPath })
 	for _, pk := range pkgs {
